@@ -158,7 +158,11 @@ def execFrame (h : Handler) (s : ExecState) (f : FrameIn) : Outcome :=
       else if f.method = "xrpc.cancel" then cancelCtx s f.params
       else if f.method = "xrpc.ch.val" then handleChanMessage s f.params
       else if f.method = "xrpc.ch.close" then handleChanClose s f.params
-      else if !s.hasHandler then .ok s              -- "handleCall on client with no reverse handler"
+      else if !s.hasHandler then
+        -- "handleCall on client with no reverse handler": a request (with an id) is answered method-not-found,
+        -- a notification is dropped
+        if id == .nil then .ok s
+        else .ok { s with wire := s.wire ++ [⟨id, .error codeMethodNotFound⟩] }
       else
         let (o, w) := wsCall h ⟨id, f.method.toList, f.call⟩
         .ok { s with spawned := s.spawned ++ [o],
